@@ -143,6 +143,16 @@ theorem prove_sound {env : Env} {fs : List Expr} {op : BOp} {l r : Expr}
     (h : proveBinaryOp fs op l r = some true) : evalI env (.binary op l r) ≠ 0 :=
   proveBinaryOp_sound hf hvl hvr h
 
+/--
+**assert_sound**: an `assert` without a `via` reason that the model of `bcheckAssert`
+accepts (the condition is a known fact, the constant `true`, or proved by
+`proveBinaryOp`) is true in every store that satisfies the facts.
+-/
+theorem assert_sound {env : Env} {fs : List Expr} {c : Expr}
+    (hf : FactsHold env fs) (hv : varsOk env c) (h : proveAssert fs c = some true) :
+    evalI env c ≠ 0 :=
+  proveAssert_sound hf hv h
+
 /-- non-vacuity: `x <= 9` is proved from the fact `x < 9` (`opImpliesOp`), `x <> 3` from
 `x == 5`, `x < 300` from the type of `x : base.u8`; `x < 5` is not proved from `x < 9` -/
 example :
@@ -237,6 +247,22 @@ theorem check_sound_F1_final {Γ : Ctx} :
     · rename_i fs1 h1
       exact ih fs1 fs' _ (stmt_sound S (hw s List.mem_cons_self) h1).2
         (fun t ht => hw t (List.mem_cons_of_mem _ ht)) h
+
+/--
+**passes_returns_sound** ("every value it … passes or returns lies inside the range the
+compiler derived for that use"): a `return e` accepted against the out type `t`, or an
+argument `e` accepted against the parameter type `t` (`bcheckAssignment1` with no
+left-hand side), evaluates without tripping a monitor to a value of the refined type `t`.
+-/
+theorem passes_returns_sound {env : Env} {fs : List Expr} {t : Ty} {e : Expr}
+    (hf : FactsHold env fs) (hv : varsOk env e) (h : checkFits fs t e = true) :
+    safe env false e ∧ inType t (evalI env e) :=
+  checkFits_sound hf hv h
+
+/-- non-vacuity: `return x & 3` fits `base.u32[..= 3]`; `return x` with `x : base.u32` does not -/
+example :
+    checkFits [] ⟨.u32, none, some 3⟩ (.binary .amp (.var "x" ⟨.u32, none, none⟩) (.const 3)) = true ∧
+    checkFits [] ⟨.u32, none, some 3⟩ (.var "x" ⟨.u32, none, none⟩) = false := by decide
 
 /-! ## Histories of public calls, any argument values -/
 
